@@ -394,11 +394,12 @@ func init() {
 			consumerCommitRollback(c)
 			packageRange(c)
 			bufferRangeDiff(c)
+			consumerOffsets(c) // eviction is gated by COMMITTED offsets: a rolled-back window must still be in the buffer
 			out := c.sel(func(o *an.Oblig) bool {
 				if isUndecided(o) || o.Rule == "ANCHOR" {
 					return true
 				}
-				if ruleIn(o, "G", "AT", "P") && funcHas(o, "(*consumer).Commit", "(*consumer).Rollback", "(*Buffer).commit", "(*Buffer).Diff") {
+				if ruleIn(o, "G", "AT", "P") && funcHas(o, "(*consumer).Commit", "(*consumer).Rollback", "(*consumer).Get", "(*Buffer).commit", "(*Buffer).Diff", "(*Buffer).consumerOffsets") {
 					return true
 				}
 				if o.Rule == "O" && subjHas(o, "consumer.mutex->Buffer.mutex") {
